@@ -8,6 +8,7 @@ PROP = {
         "quick": [B("stable"), B("chk", 0.25), B("nightly", 0.25, False)],
         "thorough": [B("stable"), B("chk", 0.5), B("nightly", 0.5, False)],
     },
+    "volume": {"quick": 3},
     "technique": "stateful (model-based) property-based testing: typed-pool operation sequences compared between glam-assert and plain builds of the same tree linked into one process; enumerated precondition violations; API-table differential",
     "level_text": "Generated operation sequences over glam's precondition-carrying API, executed with assertions on and off in the same process (SSE2, scalar-math, nightly core-simd; debug-glam-assert in the checked profile). Exploration, not proof.",
     "level_note": "Trusted: rustc, proptest, the harness's classification of which operations produce unit/affine values (taken from the statement). NEON/wasm32 not reachable.",
